@@ -1938,10 +1938,8 @@ pub fn c06_get_return(w: &mut MWorld, opi: usize) -> Option<Violation> {
         // invoked after close() returned
         // C10 asks for NoRuntimeSpecified from a get() with a non-zero per-call timeout on a pool
         // without runtime, C06 for Closed: where both apply either documented answer is accepted
-        let no_rt = !w.sc.pool.runtime
-            && (op.eff.0.map(|t| t > 0).unwrap_or(false)
-                || op.eff.1.map(|t| t > 0).unwrap_or(false)
-                || op.eff.2.map(|t| t > 0).unwrap_or(false));
+        // (only the wait timeout is "used" by a call that never gets a slot)
+        let no_rt = !w.sc.pool.runtime && op.eff.0.map(|t| t > 0).unwrap_or(false);
         if res != OpRes::GetErr(ErrV::Closed) && !(no_rt && res == OpRes::GetErr(ErrV::NoRuntime)) {
             return c06("get_after_close_is_closed", format!("get() invoked after close() returned gave {:?}", res));
         }
